@@ -376,6 +376,10 @@ func runShare(tw *traceWriter, secring, in string, random, rreq int, seed int64,
 			if err != nil {
 				fatal(err)
 			}
+			if state == "grown" {
+				runGrown(tw, sw, built, env, now, byWorld[wi+1])
+				continue
+			}
 			for _, it := range sw.Items {
 				if !it.Stored {
 					continue
@@ -408,6 +412,64 @@ func runShare(tw *traceWriter, secring, in string, random, rreq int, seed int64,
 			for _, r := range byWorld[wi+1] {
 				tw.emit(doShareReq(h, sw, built, r))
 			}
+		}
+	}
+}
+
+// runGrown: the store grows under ONE running handler. The delete claims (deletions of shares, deletions of those
+// deletions) arrive one by one AFTER the handler has already answered the world's requests; after every arrival the
+// same requests are asked again. Each phase is logged as a world of its own (the late items not yet stored), so the
+// specification judges every answer against the store as it was at that moment.
+func runGrown(tw *traceWriter, sw *SWorld, built *world.Built, env *idx.Env, now int, reqs []SReq) {
+	var late []int
+	for _, it := range sw.Items {
+		if it.Stored && it.Kind == "delete" {
+			late = append(late, it.ID)
+		}
+	}
+	if len(late) == 0 {
+		return
+	}
+	isLate := map[int]bool{}
+	for _, id := range late {
+		isLate[id] = true
+	}
+	for _, it := range sw.Items {
+		if it.Stored && !isLate[it.ID] {
+			if err := env.Deliver(built, it.ID); err != nil {
+				fatal("delivering item", it.ID, "of", sw.Name, err)
+			}
+		}
+	}
+	env.Await()
+	h, err := blobserver.CreateHandler("share", &shareLoader{sto: env.Src, ix: env.Ix},
+		jsonconfig.Obj{"blobRoot": "/bs/", "index": "/index/"})
+	if err != nil {
+		fatal("CreateHandler(share):", err)
+	}
+	refs := make([]string, len(sw.Items))
+	for i := range sw.Items {
+		refs[i] = built.Refs[i+1].String()
+	}
+	for phase := 0; phase <= len(late); phase++ {
+		if phase > 0 {
+			if err := env.Deliver(built, late[phase-1]); err != nil {
+				fatal("delivering late item", late[phase-1], "of", sw.Name, err)
+			}
+			env.Await()
+		}
+		items := append([]SItem(nil), sw.Items...)
+		for _, id := range late[phase:] {
+			items[id-1].Stored = false
+		}
+		view := &SWorld{Name: sw.Name, Items: items}
+		tw.emit(map[string]any{"ev": "world", "name": sw.Name, "state": "live", "phase": phase, "now": now, "items": items, "refs": refs})
+		for _, r := range reqs {
+			ev := doShareReq(h, view, built, r)
+			if phase < len(late) {
+				ev["gen"] = false // the generator's expectation is about the complete world
+			}
+			tw.emit(ev)
 		}
 	}
 }
